@@ -228,6 +228,9 @@ Section Refine.
     destruct (N.ltb maxe (h_psize h)) eqn:E2.
     { cbn [negb step_ok PyDecoder_pop pd_buf pd_processed pd_hdr]. unfold PyDecoder_judge_dec. rewrite HJ.
       repeat split; reflexivity. }
+    assert (E4 : N.ltb (N.of_nat (length (pd_buf st))) (N.of_nat HEADER_SIZE + h_psize h) = false)
+      by (apply N.ltb_ge; lia).
+    rewrite E4.
     destruct (N.eqb (crc32 (sub (pd_buf st) 8 (HEADER_SIZE + N.to_nat (h_psize h) - 8))) (h_crc h)) eqn:E3.
     2:{ cbn [negb step_ok PyDecoder_pop pd_buf pd_processed pd_hdr]. unfold PyDecoder_judge_dec. rewrite HJ.
         repeat split; reflexivity. }
